@@ -40,6 +40,131 @@ ASSUMPTIONS = [
 LS = 'pywbem/_listener.py'
 
 
+def array_kind_decided_by_all_items(repo, rep):
+    """C03.R10: VALUE.ARRAY may contain only VALUE / VALUE.NULL and
+    VALUE.REFARRAY only VALUE.REFERENCE / VALUE.NULL.  A function that
+    builds one of them from the items of a list with a per-item encoder
+    that returns VALUE.REFERENCE for paths and VALUE for everything else
+    must therefore have established, for *all* items, which kind they are:
+    on the path to `VALUE_ARRAY(...)` no item is a reference
+    (`not any(isinstance(x, <paths>) for x in items)`), on the path to
+    `VALUE_REFARRAY(...)` all of them are.  A decision from the first item
+    alone sends `<VALUE.ARRAY><VALUE>a</VALUE><VALUE.REFERENCE>...` for
+    ['a', path] - a request the DTD does not allow (repaired in 36019a9)."""
+    from ..paths import return_paths, _Block
+    from ..cfg import GuardWalker
+    r10 = rep.rule('C03.R10', 'the element chosen for an array value '
+                   '(VALUE.ARRAY / VALUE.REFARRAY) is decided from all items')
+    OPSF = 'pywbem/_cim_operations.py'
+    REFS = {'CIMClassName', 'CIMInstanceName'}
+    n = 0
+    for f in repo.module(OPSF).all_funcs():
+        nested = [x for x in ast.walk(f.node)
+                  if isinstance(x, ast.FunctionDef) and x is not f.node]
+        for fn in [f.node] + nested:
+            # an encoder: returns VALUE_REFERENCE for some value and builds
+            # arrays from calls of itself
+            rets = [x for x in walk_no_nested(fn) if isinstance(x, ast.Return)
+                    and isinstance(x.value, ast.Call)]
+            kinds = {(dotted(x.value.func) or '').split('.')[-1]
+                     for x in rets}
+            if not ({'VALUE_ARRAY', 'VALUE_REFARRAY'} & kinds and
+                    'VALUE_REFERENCE' in kinds):
+                continue
+            paths = return_paths(_Block(fn.body, f), max_paths=200,
+                                 inline=False) or []
+            for p_ in paths:
+                v = p_.value
+                if not (isinstance(v, ast.Call) and
+                        (dotted(v.func) or '').split('.')[-1] in (
+                            'VALUE_ARRAY', 'VALUE_REFARRAY') and v.args):
+                    continue
+                kind = dotted(v.func).split('.')[-1]
+                def one_step(e_):
+                    # a local stands for its definition (not recursively:
+                    # the names inside keep their spelling)
+                    for _ in range(3):
+                        if isinstance(e_, ast.Name) and e_.id in p_.env:
+                            e_ = p_.env[e_.id][0]
+                        else:
+                            break
+                    return e_
+                a0 = one_step(v.args[0])
+                if not (isinstance(a0, (ast.ListComp, ast.GeneratorExp)) and
+                        len(a0.generators) == 1 and
+                        any(isinstance(c_, ast.Call) and
+                            dotted(c_.func) == fn.name
+                            for c_ in ast.walk(a0.elt))):
+                    continue
+                lst = norm(a0.generators[0].iter)
+                n += 1
+                r10.sites += 1
+                r10.functions.add(f.fq)
+
+                def quantified(e):
+                    """('any'|'all', negated?) when e is any()/all() over a
+                    comprehension on `lst` testing isinstance(item, paths)"""
+                    e = one_step(e)
+                    if not (isinstance(e, ast.Call) and
+                            dotted(e.func) in ('any', 'all') and
+                            len(e.args) == 1):
+                        return None
+                    c = one_step(e.args[0])
+                    if not (isinstance(c, (ast.ListComp, ast.GeneratorExp))
+                            and len(c.generators) == 1 and
+                            norm(c.generators[0].iter) == lst and
+                            not c.generators[0].ifs):
+                        return None
+                    t, neg = c.elt, False
+                    if isinstance(t, ast.UnaryOp) and \
+                            isinstance(t.op, ast.Not):
+                        t, neg = t.operand, True
+                    if isinstance(t, ast.Call) and \
+                            dotted(t.func) == 'isinstance' and \
+                            len(t.args) == 2 and \
+                            norm(t.args[0]) == norm(c.generators[0].target):
+                        tt = t.args[1]
+                        tys = {norm(x) for x in (
+                            tt.elts if isinstance(tt, ast.Tuple) else [tt])}
+                        if tys and tys <= REFS:
+                            return dotted(e.func), neg
+                    return None
+                facts = [a for t0, p0 in p_.facts
+                         for a in GuardWalker._atoms(t0, p0)]
+                ok = False
+                for t, pol in facts:
+                    q = quantified(t)
+                    if q is None:
+                        continue
+                    fn_, neg = q
+                    # "no item is a reference" / "every item is one"
+                    none_ref = (fn_ == 'any' and not neg and not pol) or \
+                        (fn_ == 'all' and neg and pol)
+                    all_ref = (fn_ == 'all' and not neg and pol) or \
+                        (fn_ == 'any' and neg and not pol)
+                    if (kind == 'VALUE_ARRAY' and none_ref) or \
+                            (kind == 'VALUE_REFARRAY' and all_ref):
+                        ok = True
+                r10.ob(ok, '%s|%s' % (f.qualname, kind))
+                if not ok:
+                    rep.finding(r10, f.qualname + '.<locals>.' + fn.name
+                                if fn is not f.node else f.qualname,
+                                norm(v, 60), 'array-kind-by-some-items',
+                                OPSF, v.lineno,
+                                '%s is built from %s(x) for every x of %s, '
+                                'which gives VALUE.REFERENCE for paths and '
+                                'VALUE for other values, but the path to it '
+                                'has not established %s: a mixed list is '
+                                'sent as an element the DTD does not allow'
+                                % (kind.replace('_', '.'), fn.name, lst,
+                                   'that no item is a reference'
+                                   if kind == 'VALUE_ARRAY' else
+                                   'that every item is a reference'))
+    if n < 2:
+        raise AnalysisError('C03.R10: the array branches of the method '
+                            'parameter encoder were not found (%d)' % n)
+
+
 def run(repo, rep, tier):
     r1 = rep.rule('C03.R1', 'attributes valid against the DTD')
     r2 = rep.rule('C03.R2', 'element names declared in the DTD')
@@ -47,6 +172,7 @@ def run(repo, rep, tier):
     r4 = rep.rule('C03.R4', 'header/body agreement')
     r5 = rep.rule('C03.R5', 'typed method parameters')
     r6 = rep.rule('C03.R6', 'unrepresentable characters fail locally')
+    array_kind_decided_by_all_items(repo, rep)
     # ---- R1b: enumerated attribute values at the construction sites ---------
     # (the writer passes the parameter through; what the object model can
     # hand over is the value set its property setter admits, narrowed by the
